@@ -145,6 +145,8 @@ ProtocolClause(tr) ==
   IF tr.initial.incremental # <<>> \/ tr.initial.completed # <<>> THEN "D2-initial-payload-carries-incremental"
   ELSE IF fin.bad # "ok" THEN fin.bad
   ELSE IF tr.complete /\ ~fin.ended THEN "D7-stream-ended-without-hasNext-false"
+  \* nothing can happen any more (every external operation completed, a pull outstanding) yet the last payload never came
+  ELSE IF tr.stalled /\ ~fin.ended THEN "D4-delivery-stalled-with-pending-ids"
   ELSE IF fin.ended /\ fin.open # {} THEN "D4-open-ids-at-the-end"
   ELSE "ok"
 
